@@ -134,6 +134,7 @@ func (s *subs) Confirm(sub PubSubSubscription) {
 func (s *subs) Unsubscribe(sub PubSubSubscription) {
 	if atomic.LoadUint64(&s.cnt) != 0 {
 		s.mu.Lock()
+		vhook("subs.unsub.begin", s, 0, 0)
 		for id, sb := range s.chs[sub.Channel].sub {
 			if sb.fn != nil {
 				sb.fn(sub)
